@@ -346,6 +346,7 @@ def run_custom(tier, seed, only=None, verbose=False):
     W, C, R = (1, 2, 1) if tier == "quick" else (2, 2, 2)
     tmpdir = tempfile.mkdtemp(prefix="nutree-c18-", dir="/var/tmp")
     queries = 0
+    cross = 0
     solver_s = 0.0
     events_total = 0
     constraints_total = 0
@@ -374,6 +375,17 @@ def run_custom(tier, seed, only=None, verbose=False):
             res = s.check()
             solver_s += time.perf_counter() - q0
             queries += 1
+            if tier != "quick" and os.path.exists("/usr/bin/z3"):
+                # second solver on the emitted SMT-LIB2 (z3 4.8.12 binary vs the 5.1 wheel)
+                import subprocess
+
+                smt = s.to_smt2()
+                r2 = subprocess.run(["/usr/bin/z3", "-in"], input=smt, capture_output=True, text=True, timeout=120)
+                out2 = r2.stdout.strip().splitlines()
+                if "(error" in r2.stdout or not out2 or out2[0] != str(res):
+                    print("HARNESS-ERROR: solvers disagree on %s: wheel=%s binary=%s" % (name, res, r2.stdout[:80]))
+                    return 3
+                cross += 1
             if len(samples) < 4:
                 samples.append({"subject": name, "trace": [list(e) for e in tr][:12], "verdict": str(res), "error": err})
             if str(res) == "unsat":
@@ -466,6 +478,7 @@ def run_custom(tier, seed, only=None, verbose=False):
             "functions_encoded": ["Tree.__enter__", "Tree.__exit__", "Tree.save", "TypedTree.save", "Tree.copy", "Tree.filtered", "Tree.copy_to", "Tree.to_dict_list", "Tree.to_dotfile", "dot.tree_to_dotfile"],
             "bounds": {"writers": W, "sections_per_writer": C, "readers": R, "operations": OPS, "classes": CLASSES, "tree_states": STATES},
             "queries_discharged": queries,
+            "queries_cross_checked_with_z3_4_8_12": cross,
             "solver_time_s": round(solver_s, 3),
             "known_findings_active": sorted(kf_active),
             "engine": "z3 %s" % z3.get_version_string(),
